@@ -204,3 +204,25 @@ void xwrite(const void *vbuf, size_t size);
    by priority queue macros. */
 void up_heap(void *root, unsigned size);
 void down_heap(void *root, unsigned size);
+
+
+#ifdef KJN_LBZIP2_VERIF
+/* Verification build: priority queues remember their capacity and every
+   insertion asserts that the queue is not full.  The original macros have no
+   bounds check at all. */
+#undef pqueue
+#undef pqueue_init
+#undef enqueue
+#define pqueue(T)                               \
+  {                                             \
+    T *restrict root;                           \
+    unsigned size;                              \
+    unsigned cap;                               \
+  }
+#define pqueue_init(q,n) ((q).root = xmalloc(((n) + 1u) * sizeof(*(q).root)), \
+                          (q).cap = (n),                                \
+                          (void)((q).size = 0))
+#define enqueue(q,e) (assert((q).size < (q).cap),       \
+                      (q).root[(q).size] = (e),         \
+                      up_heap((q).root, (q).size++))
+#endif
